@@ -2,7 +2,7 @@
 
 Absence of out-of-bounds access in the parsers IN GENERAL is NOT decided (the parsers are safe partly by arithmetic no
 check states).  Decided -- necessary conditions only:
-  VALIDATOR    the inventory of load-time rejections (tables/validators.json, 283 passing-direction facts over 53 parser
+  VALIDATOR    the inventory of load-time rejections (tables/validators.json, 284 passing-direction facts over 53 parser
                functions, confirmed on the pinned tree): each must still be enforced with at least the tabled strength
   OPERANDCHECK per opcode, the operand validations fetch_opcode performs before emitting it (tables/opcode_checks.json);
                the rows feeding unchecked run-time sinks (class ids, user-attribute ids, slot references) are load-bearing
